@@ -215,6 +215,30 @@ func c17Selection(e *Env) {
 					continue
 				}
 				seenLeaf[leaf] = true
+				if al, isAl := leaf.(*ssa.Alloc); isAl {
+					// the address of a variable declared earlier (`route := …; if match { best = &route }`): what counts is where the
+					// address becomes the candidate – the φ edge or the store that carries it
+					var pts []ssa.Instruction
+					for _, u := range core.Referrers(al) {
+						switch x := u.(type) {
+						case *ssa.Phi:
+							for k, ed := range x.Edges {
+								if ed == ssa.Value(al) {
+									pb := x.Block().Preds[k]
+									pts = append(pts, pb.Instrs[len(pb.Instrs)-1])
+								}
+							}
+						case *ssa.Store:
+							if x.Val == ssa.Value(al) {
+								pts = append(pts, x)
+							}
+						}
+					}
+					if len(pts) > 0 {
+						stores = append(stores, pts...)
+						continue
+					}
+				}
 				if in, isIn := leaf.(ssa.Instruction); isIn {
 					stores = append(stores, in)
 				}
